@@ -56,7 +56,8 @@ def generate(prop: str, only=None):
     for key, ct in sorted(C.all_contracts().items()):
         if prop not in ct.prop:
             continue
-        target = key.split("#")[0]
+        variant = key.split("@")[1] if "@" in key else None
+        target = key.split("@")[0].split("#")[0]
         if only and not any(o in target for o in only):
             continue
         rep = FunctionReport(target, ct)
@@ -76,6 +77,9 @@ def generate(prop: str, only=None):
         try:
             rep.finfo = S.load_function(target, setter=ct.setter)
             ex = Executor(ct, rep.finfo, prop, make_models())
+            if variant:
+                ex.short += f"@{variant}"
+                rep.target = f"{target}@{variant}"
             rep.obligations = ex.run()
             rep.inlined, rep.callee_contracts, rep.assumed, rep.paths = ex.inlined, ex.callee_contracts, ex.assumed, ex.n_paths
         except (Unsupported, Undecided, S.SourceError) as e:
